@@ -61,8 +61,9 @@ def generate(tier, rng):
                 tiers.append(t)
             return tiers
         pool = ["i0", "i1", "p0", "p1", "i2"]
-        na = rng.sample(pool, rng.randint(1, 4))
-        nb = rng.sample(pool, rng.randint(1, 4))
+        # a textgrid without tiers still has a span (a stretch of padding to append, a result with no matching names)
+        na = rng.sample(pool, rng.randint(1, 4) if rng.random() < 0.95 else 0)
+        nb = rng.sample(pool, rng.randint(1, 4) if rng.random() < 0.88 else 0)
         if rng.random() < 0.5:
             A = mk_tg(na)
             if rng.random() < 0.35:
